@@ -397,6 +397,26 @@ def _from_delegate(p, resolved, DP, D):
     return False
 
 
+def _instance_test(v, FUT, BASES):
+    """v is `any(isinstance(<the future's exception>, k) for k in <bases>)` or `isinstance(<exception>, tuple(<bases>))`"""
+    def is_exc(t):
+        return isinstance(t, tuple) and t[:2] == ("call", ("attr", FUT, "exception"))
+    if not isinstance(v, tuple) or v[0] != "call":
+        return False
+    if v[1] == ("name", "bool") and len(v[2]) == 1:
+        return _instance_test(v[2][0], FUT, BASES)
+    if v[1] == ("name", "any") and len(v[2]) == 1:
+        c = v[2][0]
+        if isinstance(c, tuple) and c[0] == "comp" and len(c[2]) == 1 and len(c[3]) == 1 and not c[4]:
+            elt = c[2][0]
+            return isinstance(elt, tuple) and elt[:2] == ("call", ("name", "isinstance")) and len(elt[2]) == 2 and is_exc(elt[2][0]) and isinstance(elt[2][1], tuple) and elt[2][1][0] == "elem" and (BASES is None or container_of(elt[2][1]) == BASES) and (BASES is None or container_of(c[3][0]) == BASES or c[3][0] == BASES)
+        return False
+    if v[1] == ("name", "isinstance") and len(v[2]) == 2 and is_exc(v[2][0]):
+        b = v[2][1]
+        return BASES is None or b == BASES or (isinstance(b, tuple) and b[0] == "call" and b[1] == ("name", "tuple") and b[2] == (BASES,))
+    return False
+
+
 def _policy(ctx, rep):
     prog = ctx.prog
     pol = prog.cls("ExceptionRetryPolicy")
@@ -457,7 +477,12 @@ def _policy(ctx, rep):
             rows.add("exhausted")
             rep.ob("R-TABLE", "should_retry: attempt >= max_attempts -> False", p.value == ("const", False), "returns %s" % fmt(p.value), where_of(srm), trace_of(p))
         elif lim[0] == A and lim[1] == "<":
-            if inst:
+            if inst is None and _instance_test(p.value, FUT, S_("exception_base") if "exception_base" in cfg else None):
+                # `return any(isinstance(exc, k) for k in bases)` / `return isinstance(exc, tuple(bases))`:
+                # the answer *is* the membership test -- both remaining rows at once
+                rows.update({"retryable", "other exception"})
+                rep.ob("R-TABLE", "should_retry: answers whether the exception is of a configured base", True, "", where_of(srm))
+            elif inst:
                 rows.add("retryable")
                 rep.ob("R-TABLE", "should_retry: exception of a configured base -> True", p.value == ("const", True), "returns %s" % fmt(p.value), where_of(srm), trace_of(p))
             else:
